@@ -183,11 +183,19 @@ class DashOption:
             return '1'
         return '0'
 
+    # largest magnitude accepted for an integer option. Integer options are
+    # used as numbers of seconds, segments or frames; larger values overflow
+    # the date and time arithmetic they are used in
+    MAX_INT_VALUE = 0x7FFFFFFF
+
     @staticmethod
     def int_or_none_from_string(value: str) -> int | None:
         if value in {None, '', 'none'}:
             return None
-        return int(value, 10)
+        rv = int(value, 10)
+        if abs(rv) > DashOption.MAX_INT_VALUE:
+            raise ValueError(f'{value} is out of range')
+        return rv
 
     @staticmethod
     def float_or_none_from_string(value: str) -> float | None:
